@@ -39,5 +39,10 @@ pub use common::{To2D, To3D, TransformBy};
 // Common options
 pub use common::{BestFit, Resample, SelectOp, Selection, Smoothing};
 
+// Verification hook (see /verif/MANIFEST.json): compiled only by `cargo kani` or with `--cfg engeom_verif`.
+#[cfg(any(kani, engeom_verif))]
+#[path = "/verif/kani/harness/mod.rs"]
+pub mod verif_kani;
+
 #[cfg(test)]
 mod tests {}
